@@ -194,6 +194,7 @@ type dsRouteAcct struct {
 	delivered  int // owner pushes carrying the route that reached the owner
 	rwrites    int // session write calls at a remote owner
 	accepted   int
+	lostResp   int // delivered owner pushes whose outcome never reached the sender (a repeat is then legitimate)
 	lastRetry  bool
 	unknown    bool // never resolved by presence for this plan
 }
@@ -493,13 +494,17 @@ func (s *dsRemote) PushOwner(ctx context.Context, push onlinedelivery.OwnerPush)
 	}
 	c2 := &dsCall{kind: "rsp", node: push.OwnerNodeID, to: s.n.id, plan: p, routes: routes}
 	d2 := w.w.ParkCtx(ctx.Done(), fmt.Sprintf("RSP n%d->n%d p%d %s => %s", push.OwnerNodeID, s.n.id, p.id, dsRouteKeys(routes), sum), c2, dsCtx)
-	if d2 != dsRspDeliver {
+	if d2 != dsRspDeliver || err != nil {
+		w.mu.Lock()
+		for _, r := range routes {
+			w.acct(p, r).lostResp++
+		}
+		w.mu.Unlock()
 		w.justify(p, routes)
+		if err != nil && d2 == dsRspDeliver {
+			return res, err
+		}
 		return onlinedelivery.OwnerPushResult{}, errDsNet
-	}
-	if err != nil {
-		w.justify(p, routes)
-		return res, err
 	}
 	w.settled(p, res.Accepted)
 	w.settled(p, res.Dropped)
@@ -1002,6 +1007,8 @@ func (w *dsWorld) checkPlanLocked(p *dsPlan) {
 			w.fail("push-to-unresolved-target", "route", fmt.Sprintf("%s: push to %s which presence never resolved for this plan (attempts=%d writes=%d)", tag, k, a.attempts, a.rwrites))
 		case a.attempts > a.mult+a.just:
 			w.fail("unjustified-push", "", fmt.Sprintf("%s: route %s pushed %d times; resolved %d time(s) and only %d retryable/failed outcome(s) justify a retry", tag, k, a.attempts, a.mult, a.just))
+		case a.accepted > a.mult+a.lostResp:
+			w.fail("pushed-twice", "", fmt.Sprintf("%s: route %s accepted the message %d times; resolved %d time(s), %d owner push outcome(s) lost", tag, k, a.accepted, a.mult, a.lostResp))
 		case a.rwrites > a.delivered:
 			w.fail("write-without-push", "", fmt.Sprintf("%s: route %s written %d times at its owner but only %d owner push(es) carrying it were delivered", tag, k, a.rwrites, a.delivered))
 		case a.attempts > a.mult*w.cfg.RetryMax:
